@@ -6,8 +6,50 @@ DEFAULTS (read from the vendored jsonwebtoken source whose version /repo/Cargo.l
 overridden by the statements of `build_validation` (every statement of the body must be one
 this translator understands, otherwise it fails loudly), plus the field tables of the two
 claims structs and the `required_claims` of `AnyClaims`.
-C09: the comparison operators of identity_registry.rs that the model depends on."""
+C09: the comparison operator of identity_registry.rs that the model imports, and the clock
+argument of the tunnel server's authorisation calls.
+
+Construct checks come in two kinds (AGENT_GUIDE "need vs expect"):
+  need   (HARD)  constants / tables / the Validation profile the model imports, and constructs
+                 the correspondence harness cannot observe: which clock value SnapTunServer hands
+                 to `is_authorized` (the harness virtualises time inside its authorisation
+                 wrapper), tunnel expiry by timers, what the dataplane gateway forwards.
+  expect (SOFT)  mirrored statements whose behaviour the harness observes on the real code
+                 (key selection by kid, AnyClaims version dispatch, granted lifetime,
+                 add_identity / clean_expired, the presence of the authorisation checks).
+The regular expressions pin operators, constants and callee names, not local names or layout."""
 import glob as _glob, os as _os
+
+def _fn_body(text, name):
+    """body (between the outer braces) of `fn <name>`, None if absent"""
+    m = re.search(r"fn " + re.escape(name) + r"\b", text)
+    if not m:
+        return None
+    i = text.find("{", m.end())
+    # skip a `where` clause / return type: first '{' after the signature's closing ')'
+    depth = 0; k = m.end(); 
+    while k < len(text) and text[k] != "(":
+        k += 1
+    while k < len(text):
+        if text[k] == "(": depth += 1
+        elif text[k] == ")":
+            depth -= 1
+            if depth == 0: break
+        k += 1
+    i = text.find("{", k)
+    if i < 0:
+        return None
+    depth = 0
+    for j in range(i, len(text)):
+        if text[j] == "{": depth += 1
+        elif text[j] == "}":
+            depth -= 1
+            if depth == 0:
+                return text[i + 1:j]
+    return None
+
+def _strip_comments(t):
+    return re.sub(r"//[^\n]*", "", t)
 
 def _coq_str(s):
     return '"' + s.replace('"', '""') + '"'
@@ -124,28 +166,34 @@ def _token():
         missing.append(f"{rel}: build_validation statement not understood by the translator: {s!r}")
     if not algs:
         missing.append(f"{rel}: build_validation: Validation::new(Algorithm::..)")
-    # ---- verify(): key selection shape
-    need(t, r"let key = match \(header\.kid, &self\.jwks_store\) \{\s*\(Some\(kid\), Some\(store\)\) => \{\s*match store\.await_key\(&kid\)\.await \{\s*Some\(k\) => k,\s*None => return Err\(SnapTokenVerifyError::UnknownKid\(kid\)\),\s*\}\s*\}\s*_ => self\.static_key\.clone\(\),",
-         "verify: key selection by kid", rel)
-    need(t, r"decode::<AnyClaims>\(token, &key, &self\.validation\)", "verify: decode::<AnyClaims>", rel)
+    # ---- verify(): key selection by kid (observed by the harness: static and JWKS configurations)
+    tc = _strip_comments(t)
+    expect(tc, r"match \(\s*(?:\w+\.)?kid\s*,\s*&self\.jwks_store\s*\)", "verify: key selection matches on (kid, jwks_store)", rel)
+    expect(tc, r"\(Some\((\w+)\), Some\((\w+)\)\) =>.*?\2\s*\.await_key\(&\1\)\s*\.await", "verify: kid + store -> store.await_key(kid)", rel, re.S)
+    expect(tc, r"None => (?:return )?Err\(SnapTokenVerifyError::UnknownKid\(\w+\)\)", "verify: unresolved kid -> UnknownKid", rel)
+    expect(tc, r"_ => (?:Ok\()?self\.static_key\.clone\(\)", "verify: otherwise the static key", rel)
+    expect(tc, r"decode::<AnyClaims>\(\s*\w+,\s*&\w+,\s*&self\.validation\s*\)", "verify: decode::<AnyClaims>(token, key, self.validation)", rel)
+    need(tc, r"validation: build_validation\(\)", "SnapTokenVerifier::new uses build_validation()", rel)
     # ---- claims structs
     r0 = "crates/snap/snap-tokens/src/v0.rs"; r1 = "crates/snap/snap-tokens/src/v1.rs"
     f0, fl0 = _fields(src(r0), r0, "v0 SnapTokenClaims")
     f1, fl1 = _fields(src(r1), r1, "v1 SnapTokenClaims")
-    need(src(r0), r"pub struct Pssid\(pub Uuid\);", "v0 Pssid = Uuid", r0)
+    expect(src(r0), r"pub struct Pssid\(pub Uuid\);", "v0 Pssid = Uuid", r0)
     t1 = src(r1)
-    m17 = need(t1, r"if bytes\.len\(\) != (\d+) \{", "v1 Pssid length", r1)
-    need(t1, r"if bytes\[0\] != 0x00 \{", "v1 Pssid version byte", r1)
-    need(t1, r"URL_SAFE_NO_PAD\s*\.decode\(&s\)", "v1 Pssid base64url", r1)
+    m17 = need(t1, r"if \w+\.len\(\) != (\d+) \{", "v1 Pssid length", r1)
+    expect(t1, r"if \w+\[0\] != (?:0x00|0) \{", "v1 Pssid version byte", r1)
+    expect(t1, r"URL_SAFE_NO_PAD\s*\.decode\(", "v1 Pssid base64url", r1)
     lrel = "crates/snap/snap-tokens/src/lib.rs"
-    lt = src(lrel)
-    need(lt, r'if let Some\(ver\) = value\.get\("ver"\) \{\s*match ver\.as_u64\(\) \{\s*Some\(1\) => \{', "AnyClaims: ver dispatch (1 -> V1)", lrel)
-    need(lt, r"Some\(n\) => \{\s*Err\(serde::de::Error::custom\(format!\(\s*\"unsupported SNAP token version", "AnyClaims: unknown ver rejected", lrel)
-    need(lt, r"\} else \{\s*// No version claim -> Legacy V0\s*let claims: v0::SnapTokenClaims =", "AnyClaims: no ver -> V0", lrel)
-    # ---- handler: granted lifetime
+    lt = _strip_comments(src(lrel))
+    # AnyClaims version dispatch (observed: ver absent / 0 / 1 / 2 / "1" / 1.0 / -1 / null on both bases)
+    expect(lt, r'if let Some\((\w+)\) = \w+\.get\("ver"\) \{\s*match \1\.as_u64\(\) \{\s*Some\(1\) =>', "AnyClaims: a present ver is dispatched on as_u64 (1 -> V1)", lrel)
+    expect(lt, r"Some\(\w+\) => \{?\s*Err\(serde::de::Error::custom\(format!\(\s*\"unsupported SNAP token version", "AnyClaims: unknown ver rejected", lrel)
+    expect(lt, r"None => \{?\s*Err\(serde::de::Error::custom\(", "AnyClaims: non-numeric ver rejected", lrel)
+    expect(lt, r"\} else \{\s*let \w+: v0::SnapTokenClaims =", "AnyClaims: no ver -> V0", lrel)
+    # ---- handler: granted lifetime (observed through the router)
     crel = "crates/snap/snap-control/src/api/crpc.rs"
-    ct = src(crel)
-    need(ct, r"let now = SystemTime::now\(\);\s*let lifetime = snap_token\.0\.exp_time\(\)\.duration_since\(now\)\.map_err", "lifetime = exp_time - now", crel)
+    ct = _strip_comments(src(crel))
+    expect(ct, r"let lifetime = \w+(?:\.0)?\.exp_time\(\)\.duration_since\((\w+)\)\.map_err", "lifetime = exp_time - now, refused when negative", crel)
     def b(x): return "true" if x == "true" else "false"
     body = f"""From Coq Require Import NArith List String.
 Import ListNotations.
@@ -169,38 +217,76 @@ Definition V1_PSSID_LEN : N := {m17.group(1) if m17 else 0}.
 """
     emit("SnapToken.v", body)
 
+def _clock_args(body, what, rel):
+    """HARD: every `.is_authorized(<t>, ..)` call in `body` passes a clock value read in the same
+    function: `Instant::now()` itself or a local bound exactly once by `let <t> = Instant::now();`.
+    The correspondence cannot see this (its authorisation wrapper ignores the instant)."""
+    if body is None:
+        missing.append(f"{rel}: {what}: function not found")
+        return
+    body = _strip_comments(body)
+    calls = re.findall(r"\.is_authorized\(\s*([^,]+?)\s*,", body)
+    if not calls:
+        missing.append(f"{rel}: {what}: no authorisation call (.is_authorized) left")
+        return
+    for arg in calls:
+        if re.fullmatch(r"(?:std::time::)?Instant::now\(\)", arg):
+            continue
+        ok = re.fullmatch(r"\w+", arg) is not None \
+            and len(re.findall(r"let (?:mut )?" + re.escape(arg) + r"(?:\s*:\s*[\w:]+)?\s*=\s*(?:std::time::)?Instant::now\(\)\s*;", body)) == 1 \
+            and len(re.findall(r"(?<![\w.])" + re.escape(arg) + r"\s*=[^=]", body)) == 1
+        if not ok:
+            missing.append(f"{rel}: {what}: is_authorized is called with `{arg}`, which is not a fresh Instant::now() of this function")
+
 def _registry():
     rel = "crates/snap/snap-control/src/server/identity_registry.rs"
-    t = src(rel)
-    need(t, r"fn is_authorized\(&self, now: Instant\) -> bool \{\s*self\.expires_at > now\s*\}", "is_authorized: expires_at > now (strict)", rel)
-    # the statements of add_identity / clean_expired / is_authorized the model transcribes
-    need(t, r"self\.sessions\s*\.get\(ident\)\s*\.filter\(\|session\| session\.is_authorized\(now\)\)", "state.is_authorized: sessions.get(ident).filter(is_authorized)", rel)
-    need(t, r"let was_new = !self\.sessions\.contains_key\(&identity\);", "add_identity: was_new", rel)
-    need(t, r"if let Some\(prev_identity\) = self\.associations\.insert\(key\.clone\(\), identity\)\s*&& prev_identity != identity\s*\{\s*self\.sessions\.remove\(&prev_identity\);\s*\}", "add_identity: superseded identity loses its session", rel)
-    need(t, r"self\.associations\.retain\(\|existing_key, existing_identity\| \{\s*\*existing_identity != identity \|\| existing_key == &key\s*\}\);", "add_identity: one key per identity (retain)", rel)
-    need(t, r"self\.sessions\s*\.insert\(identity, IdentityRegistration::new\(expiry\)\);", "add_identity: sessions.insert", rel)
-    need(t, r"\.filter_map\(\|\(identity, session\)\| \(!session\.is_authorized\(now\)\)\.then_some\(\*identity\)\)", "clean_expired: expired = !is_authorized(now)", rel)
-    need(t, r"for identity in expired \{\s*self\.sessions\.remove\(&identity\);\s*self\.associations\s*\.retain\(\|_, registered_identity\| \*registered_identity != identity\);", "clean_expired: removes session and associations", rel)
-    need(t, r"res = state\.add_identity\(key, ident, now \+ lifetime\);", "register: expiry = now + lifetime", rel)
-    # the authorisation checks of the tunnel server and what the gateway forwards
+    t = _strip_comments(src(rel))
+    # ---- imported constant: the comparison of IdentityRegistration::is_authorized
+    m = need(t, r"fn is_authorized\(&self, (\w+): Instant\) -> bool \{\s*(?:self\.expires_at\s*(>=|>)\s*\1|\1\s*(<=|<)\s*self\.expires_at)\s*\}",
+             "IdentityRegistration::is_authorized: comparison of expires_at with now", rel)
+    strict = bool(m) and (m.group(2) or m.group(3)) in (">", "<")
+    # ---- mirrored statements, all observed (has_authorization after every event, register's result)
+    expect(t, r"self\s*\.sessions\s*\.get\(\w+\)\s*\.filter\(\|(\w+)\| \1\.is_authorized\(\w+\)\)", "state.is_authorized: sessions.get(ident).filter(is_authorized)", rel)
+    expect(t, r"!self\.sessions\.contains_key\(&\w+\)", "add_identity: was_new = no session before", rel)
+    expect(t, r"if let Some\((\w+)\) = self\.associations\.insert\(\w+(?:\.clone\(\))?, (\w+)\)\s*&& \1 != \2\s*\{\s*self\.sessions\.remove\(&\1\);", "add_identity: superseded identity loses its session", rel)
+    expect(t, r"self\.associations\.retain\(\|(\w+), (\w+)\| \{?\s*\*\2 != \w+ \|\| \1 == &\w+\s*\}?\)", "add_identity: one key per identity (retain by identity != .. || key == ..)", rel)
+    expect(t, r"self\.sessions\s*\.insert\(\w+, IdentityRegistration::new\(\w+\)\)", "add_identity: sessions.insert", rel)
+    ce = _fn_body(t, "clean_expired")
+    expect(ce or "", r"!\s*\w+\.is_authorized\(\w+\)", "clean_expired: expired = !is_authorized(now)", rel)
+    expect(ce or "", r"self\.sessions\.remove\(&\w+\);", "clean_expired: removes the session", rel)
+    expect(ce or "", r"self\.associations\s*\.retain\(\|_, (\w+)\| \*\1 != \w+\)", "clean_expired: removes the identity's associations", rel)
+    expect(t, r"\.add_identity\(\w+, \w+, (\w+) \+ (\w+)\)", "register: expiry = now + lifetime", rel)
+    # ---- the tunnel server
     srel = "crates/snap/snap-tun/src/server.rs"
     st = src(srel)
-    need(st, r"\(Entry::Occupied\(mut occupied_entry\), p\) => \{\s*let active_tunnel = occupied_entry\.get_mut\(\);.*?let Some\(session_data\) = self\s*\.authz\s*\.is_authorized\(packet_now, active_tunnel\.peer_static\.as_bytes\(\)\)\s*else \{.*?return HandleIncomingPacketResult::Result \{\s*result: TunnResult::Err\(WireGuardError::UnexpectedPacket\),", "incoming, existing tunnel: authorisation of the tunnel's peer_static before the packet reaches the tunnel", srel, re.S)
-    need(st, r"\(e, WgKind::HandshakeInit\(wg_init\)\) => \{.*?let Some\(session_data\) = self\s*\.authz\s*\.is_authorized\(packet_now, &peer\.peer_static_public\)\s*else \{.*?let peer_static = x25519::PublicKey::from\(peer\.peer_static_public\);\s*let mut tunn = Tunn::new\(\s*self\.static_private\.clone\(\),\s*peer_static,", "incoming, new tunnel: authorisation of the handshake's static key, tunnel created for that key", srel, re.S)
-    need(st, r"\(_, _p\) => \{.*?result: TunnResult::Err\(WireGuardError::InvalidPacket\),", "incoming, no tunnel and not a handshake init: InvalidPacket", srel, re.S)
-    need(st, r"let Some\(active_tunnel\) = self\.active_tunnels\.get_mut\(&to\) else \{.*?return None;\s*\};\s*let packet_now = Instant::now\(\);\s*let Some\(session_data\) = self\s*\.authz\s*\.is_authorized\(packet_now, active_tunnel\.peer_static\.as_bytes\(\)\)\s*else \{.*?return None;\s*\};", "outgoing: tunnel lookup then authorisation of its peer_static", srel, re.S)
-    need(st, r"TunnResult::WriteToTunnel\(p\) if p\.is_empty\(\) => TunnResult::Done,", "keepalive is not forwarded", srel)
-    need(st, r"for p in tunn\.get_queued_packets\(\) \{\s*q\.push_back\(p\);", "queued outbound packets are drained while handling an incoming packet", srel)
-    need(st, r"TunnResult::WriteToTunnel\(packet\) => \{\s*HandleIncomingPacketResult::Forwarded \{", "Forwarded = WriteToTunnel", srel)
-    need(st, r"self\.active_tunnels\.retain\(\|k, active_tunnel\| \{.*?!active_tunnel\.tunn\.is_expired\(\)\s*\}\);", "update_timers: retain non-expired tunnels", srel, re.S)
+    inc = _fn_body(st, "handle_incoming_packet_with_session")
+    outg = _fn_body(st, "handle_outgoing_packet_with_session")
+    # HARD (not observable: the harness's authorisation wrapper ignores the instant it is handed)
+    _clock_args(inc, "incoming path: clock value of the authorisation checks", srel)
+    _clock_args(outg, "outgoing path: clock value of the authorisation check", srel)
+    inc_c = _strip_comments(inc or ""); out_c = _strip_comments(outg or "")
+    # SOFT (observed: forwarded / not forwarded / encrypted / none for every event)
+    expect(inc_c, r"Entry::Occupied\(.*?\.is_authorized\(\s*\w+,\s*\w+\.peer_static\.as_bytes\(\)\s*\)\s*else \{.*?WireGuardError::UnexpectedPacket", "incoming, existing tunnel: its peer_static is authorised before the packet reaches the tunnel", srel, re.S)
+    expect(inc_c, r"WgKind::HandshakeInit\(.*?\.is_authorized\(\s*\w+,\s*&\w+\.peer_static_public\s*\)\s*else \{.*?Tunn::new\(", "incoming, new tunnel: the handshake's static key is authorised before the tunnel is created", srel, re.S)
+    expect(inc_c, r"WireGuardError::InvalidPacket", "incoming, no tunnel and not a handshake init: InvalidPacket", srel)
+    expect(out_c, r"self\.active_tunnels\.get_mut\(&\w+\) else \{.*?return None;.*?\.is_authorized\(\s*[^,]+,\s*\w+\.peer_static\.as_bytes\(\)\s*\)\s*else \{.*?return None;", "outgoing: tunnel lookup, then authorisation of its peer_static, else None", srel, re.S)
+    expect(st, r"TunnResult::WriteToTunnel\((\w+)\) if \1\.is_empty\(\) => TunnResult::Done", "keepalive is not forwarded", srel)
+    expect(st, r"for (\w+) in \w+\.get_queued_packets\(\) \{\s*\w+\.push_back\(\1\);", "queued outbound packets are drained while handling an incoming packet", srel)
+    expect(st, r"TunnResult::WriteToTunnel\(\w+\) => \{?\s*HandleIncomingPacketResult::Forwarded \{", "Forwarded = WriteToTunnel", srel)
+    # HARD (tunnel expiry is driven by real-time timers the correspondence does not exercise)
+    need(_strip_comments(_fn_body(st, "update_timers") or ""), r"self\.active_tunnels\.retain\(.*?!\s*\w+\.tunn\.is_expired\(\)", "update_timers: retain exactly the non-expired tunnels", srel, re.S)
+    # HARD (the gateway is not run by the harness)
     grel = "crates/snap/snap-dataplane/src/tunnel_gateway/gateway.rs"
-    gt = src(grel)
-    need(gt, r"HandleIncomingPacketResult::Forwarded \{\s*packet,\s*processed_at,\s*session_data,\s*\} => \{\s*match inbound_datagram_check\(&packet\[\.\.\], from\.ip\(\)\)", "gateway dispatches only Forwarded results", grel)
-    need(gt, r"let handled = snaptun_srv\.handle_outgoing_packet_with_session\(packet, target\)\?;", "gateway sends only what handle_outgoing_packet_with_session admits", grel)
-    body = """From Coq Require Import NArith.
+    gt = _strip_comments(src(grel))
+    need(gt, r"HandleIncomingPacketResult::Forwarded \{[^}]*\} => \{\s*match inbound_datagram_check\(", "gateway dispatches Forwarded results (after the inbound datagram check)", grel)
+    need(gt, r"\.try_dispatch\(", "gateway: dispatch call", grel)
+    if len(re.findall(r"\.try_dispatch\(", gt)) != 1:
+        missing.append(f"{grel}: gateway: exactly one dispatch site (inside the Forwarded arm)")
+    need(gt, r"\.handle_outgoing_packet_with_session\(\s*\w+,\s*\w+\s*\)\?", "gateway sends only what handle_outgoing_packet_with_session admits", grel)
+    body = f"""From Coq Require Import NArith.
 Local Open Scope N_scope.
-(* identity_registry.rs: IdentityRegistration::is_authorized is `expires_at > now` *)
-Definition AUTH_STRICT : bool := true.
+(* identity_registry.rs: IdentityRegistration::is_authorized is `expires_at > now` when strict *)
+Definition AUTH_STRICT : bool := {"true" if strict else "false"}.
 """
     emit("SnapRegistry.v", body)
 
